@@ -105,6 +105,11 @@ DataScn == [i \in 1..Len(DataSeq) |-> Series(LSOf(DataSeq[i]), [u \in 1..6 |-> S
                  Series(<< <<"__name__", "d">>, <<"a", "x">>, <<"b", "x">>, <<"c", "2">> >>, [u \in 1..6 |-> Smp(u - 1, "f", 700 + u)]),
                  Series(<< <<"__name__", "d">>, <<"a", "y">>, <<"b", "x">> >>, [u \in 1..6 |-> Smp(u - 1, "f", 800 + u)]),
                  Series(<< <<"__name__", "d">>, <<"a", "y">>, <<"b", "y">> >>, [u \in 1..6 |-> Smp(u - 1, "f", 900 + u)]) >>
+           \* ... and a histogram hb (per a): a function that removes a label (le) stands between its selector and the operator
+           \o << Series(<< <<"__name__", "hb">>, <<"a", "x">>, <<"le", "1">> >>, [u \in 1..6 |-> Smp(u - 1, "f", 2)]),
+                 Series(<< <<"__name__", "hb">>, <<"a", "x">>, <<"le", "+Inf">> >>, [u \in 1..6 |-> Smp(u - 1, "f", 4)]),
+                 Series(<< <<"__name__", "hb">>, <<"a", "y">>, <<"le", "1">> >>, [u \in 1..6 |-> Smp(u - 1, "f", 1)]),
+                 Series(<< <<"__name__", "hb">>, <<"a", "y">>, <<"le", "+Inf">> >>, [u \in 1..6 |-> Smp(u - 1, "f", 8)]) >>
 
 \* binon: `A + on () B` - selectors as direct operands, but matched on no label at all
 \* binona / binign: direct operands matched on one label / on all but one label
@@ -179,7 +184,14 @@ SubsetPlans == {Join(<<[Blank("sel") EXCEPT !.m = <<Metric("m")>> \o ms]>>, <<[B
                \cup {Join(<<[Blank("sel") EXCEPT !.m = <<Metric("d")>>]>>, <<[Blank("sel") EXCEPT !.m = <<Metric("m")>> \o ms]>>,
                      LAMBDA a, b : BinM("-", a, b, FALSE, "1:1", MatchOn[k].on, MatchOn[k].l, <<>>))
                    : ms \in {<<Eq("a", "y")>>, <<Eq("a", "y"), Eq("b", "y")>>, <<Neq("a", "x")>>}, k \in 1..Len(MatchOn)}
-EmitFamily == (\A p \in SubsetPlans : Emit(Scn("opt", "C09", TickMs, DataScn, p, 2, 5, 1, 2, 0) @@ [pin |-> TRUE, cfg |-> [bare |-> 1]])) /\ (\A p \in DirectPlans : Emit(Scn("opt", "C09", TickMs, DataScn, p, 2, 5, 1, 2, 0) @@ [pin |-> TRUE, cfg |-> [bare |-> 1]])) /\ \A p \in FamilyPlans : Emit(Scn("opt", "C09", TickMs, DataScn, p, 2, 5, 1, 2, 0) @@ [pin |-> TRUE])
+\* histogram_quantile over a bucket selector next to a plain selector: the labels of the function's result are not the
+\* labels of its selector (le is gone), so a matcher on le says nothing about the other side
+HB(ms) == Join(<<NumS("0.5")>>, <<[Blank("sel") EXCEPT !.m = <<Metric("hb")>> \o ms]>>, LAMBDA a, b : Fn("histogram_quantile", <<a, b>>))
+HistPlans == {Join(HB(ms), <<[Blank("sel") EXCEPT !.m = <<Metric("m"), Eq("b", "")>>]>>, LAMBDA a, b : Bin("*", a, b))
+                 : ms \in {<<>>, <<Re("le", ".+", <<"1", "+Inf">>)>>, <<Neq("le", "")>>, <<Eq("a", "x")>>, <<Re("le", "1|.Inf", <<"1", "+Inf">>), Eq("a", "y")>>}}
+             \cup {Join(<<[Blank("sel") EXCEPT !.m = <<Metric("m"), Eq("b", "")>> \o ms]>>, HB(<<>>), LAMBDA a, b : Bin("+", a, b))
+                 : ms \in {<<Eq("le", "")>>, <<Neq("a", "x")>>}}
+EmitFamily == (\A p \in HistPlans : Emit(Scn("opt", "C09", TickMs, DataScn, p, 2, 5, 1, 2, 0) @@ [pin |-> TRUE, cfg |-> [bare |-> 1]])) /\ (\A p \in SubsetPlans : Emit(Scn("opt", "C09", TickMs, DataScn, p, 2, 5, 1, 2, 0) @@ [pin |-> TRUE, cfg |-> [bare |-> 1]])) /\ (\A p \in DirectPlans : Emit(Scn("opt", "C09", TickMs, DataScn, p, 2, 5, 1, 2, 0) @@ [pin |-> TRUE, cfg |-> [bare |-> 1]])) /\ \A p \in FamilyPlans : Emit(Scn("opt", "C09", TickMs, DataScn, p, 2, 5, 1, 2, 0) @@ [pin |-> TRUE])
 \* emit pairs on which a rewrite actually fires or which PropagateMatchers inspects and rejects, from the seeded residue class
 Fires(x) == Rewrite(x, S1(x)).merged \/ Rewrite(x, S2(x)).merged \/ Applies(x)
 \* ... and, at a third of that rate, pairs on which the model says NO rewrite fires (a change that
